@@ -24,7 +24,8 @@ pub struct Case {
   pub unit: bool,
   /// how the same request is written: bit 0 each allowed lint twice, 1 all lints after a single `--allow`, 2 lints in
   /// descending order, 3 length with a fraction (`16383.5` is 16383), 4 unit in upper case, 5 `--dry-run`,
-  /// 6 global `--quiet`, 7 an announce URL without a host, 8 content far larger than the piece length
+  /// 6 global `--quiet`, 7 an announce URL without a host, 8 content far larger than the piece length, 9 `--force`
+  /// (it lifts the refusal to overwrite, not a lint)
   pub style: u32,
 }
 
@@ -131,6 +132,9 @@ fn observe(ctx: &Ctx, c: &Case) -> Obs {
   }
   if c.style & 32 != 0 {
     args.push("--dry-run".into());
+  }
+  if c.style & 512 != 0 {
+    args.push("--force".into());
   }
   if c.style & 64 != 0 {
     args.insert(0, "--quiet".into());
@@ -252,8 +256,12 @@ pub fn run(ctx: &Ctx) -> Report {
           }
           // the same request written differently: the decision is the same
           if [0u64, 1000, 16383, 16384, 16385, 49152, 65537, 1 << 32, (1u64 << 32) + 1, 1 << 33].contains(&p) {
-            let bit = 1u32 << ((mask as u32 + pa as u32 * 3 + (p % 7) as u32) % 9);
+            let bit = 1u32 << ((mask as u32 + pa as u32 * 3 + (p % 7) as u32) % 10);
             cases.push(Case { mask, p, private: pa & 1 == 1, announce: pa & 2 == 2, tier: false, input: if bit == 256 { 0 } else { (mask % 3) as u8 }, unit: false, style: bit });
+            // (and --force with every one of these: overwriting is no licence)
+            if [1000u64, 16383, 16385, 49152].contains(&p) {
+              cases.push(Case { mask, p, private: pa & 1 == 1, announce: pa & 2 == 2, tier: false, input: 0, unit: false, style: 512 });
+            }
           }
           if p >= 1 << 32 {
             // nothing is written under --dry-run, but what would be refused is refused all the same
